@@ -49,6 +49,14 @@ def _agent(name: str, comps: List[Dict[str, Any]]) -> Dict[str, Any]:
     }
 
 
+def _scripted(name: str, comps: List[Dict[str, Any]]) -> Dict[str, Any]:
+    """A scripted (probabilistic) agent over the same two actions: it draws its own action every step."""
+    d = _agent(name, comps)
+    d.update({"team": "GREEN", "type": "probabilistic-agent", "agent_settings": {"action_probabilities": {0: 0.5, 1: 0.5}}})
+    d.pop("observation_space")
+    return d
+
+
 def _penalty(w: int, p_act: int, p_idle: int) -> Dict[str, Any]:
     return {"type": "action-penalty", "weight": w, "options": {"action_penalty": p_act, "do_nothing_penalty": p_idle}}
 
@@ -58,14 +66,15 @@ def _shared(w: int, other: str) -> Dict[str, Any]:
 
 
 def graph_scenario(decl: List[int], edges: List[Tuple[int, int, int]], own: Dict[int, Tuple[int, int, int]],
-                   own_first: Dict[int, bool]) -> Dict[str, Any]:
+                   own_first: Dict[int, bool], scripted: Tuple[int, ...] = ()) -> Dict[str, Any]:
     """decl: vertices in declaration order; edges: (sharer, sharee, weight); own[v] = (weight,
     action_penalty, do_nothing_penalty) - all integers, so every sum is exact in floating point."""
     agents = []
     for v in decl:
         sh = [_shared(w, f"ag{b}") for (a, b, w) in edges if a == v]
         me = [_penalty(*own[v])]
-        agents.append(_agent(f"ag{v}", me + sh if own_first.get(v, True) else sh + me))
+        # (the vertices in `scripted` are scripted agents: sharing is between agents of any kind, in either direction)
+        agents.append((_scripted if v in scripted else _agent)(f"ag{v}", me + sh if own_first.get(v, True) else sh + me))
     return scenarios.base_cfg([scenarios.host("h", "192.168.1.2", "computer")], [], agents=agents)
 
 
@@ -112,7 +121,9 @@ def run_graph_case(rec: RewardRecorder, cfg: Dict[str, Any], actions: List[List[
     from primaite.game.game import PrimaiteGame
     from primaite.session.environment import PrimaiteGymEnv
 
-    tr = rec.begin(cfg, proxy=1 if use_env else 0, meta=meta, stimulus={"graph_scenario": params, "actions": actions, "env": use_env})
+    kinds = [a["type"] for a in cfg["agents"]]
+    env_idx = kinds.index("proxy-agent") if use_env else -1   # (the environment serves the first learning agent declared)
+    tr = rec.begin(cfg, proxy=env_idx + 1, meta=meta, stimulus={"graph_scenario": params, "actions": actions, "env": use_env})
     env = None
     game = None
     try:
@@ -129,10 +140,11 @@ def run_graph_case(rec: RewardRecorder, cfg: Dict[str, Any], actions: List[List[
     for acts in actions:
         agents = list(game.agents.values())
         for ag, a in zip(agents, acts):
-            ag.store_action(a)
+            if hasattr(ag, "store_action"):
+                ag.store_action(a)
         try:
             if use_env:
-                _, reward, _, _, _ = env.step(acts[0])
+                _, reward, _, _, _ = env.step(acts[env_idx])
             else:
                 reward = None
                 game.step()
@@ -356,15 +368,22 @@ def main(tier: str, seed: int) -> int:
         edges = edges if edges is not None else [(a, b, rng.choice([1, 2, -1])) for (a, b) in g]
         own = own or _rand_own(rng, decl)
         first = {v: rng.random() < 0.5 for v in decl}
-        cfg = graph_scenario(list(decl), edges, own, first)
+        use_env = env if env is not None else (counts["accepted"] % 4 == 3)
+        scripted: Tuple[int, ...] = ()
+        if not label.startswith("gen") and counts["loaded"] % 3 == 1:
+            # a third of the cases mixes learning and scripted agents (at least one learning agent when the environment steps)
+            scripted = tuple(v for v in decl if rng.random() < 0.5)
+            if use_env and len(scripted) == len(decl):
+                scripted = scripted[1:]
+        counts["mixed_kinds"] = counts.get("mixed_kinds", 0) + (1 if scripted else 0)
+        cfg = graph_scenario(list(decl), edges, own, first, scripted)
         if actions is None:
             actions = [[rng.randrange(2) for _ in decl] for _ in range(steps)]
             if steps >= 2:  # every agent both idles and acts at least once
                 actions[0] = [0] * len(decl)
                 actions[1] = [1] * len(decl)
                 rng.shuffle(actions)
-        use_env = env if env is not None else (counts["accepted"] % 4 == 3)
-        params = {"decl": list(decl), "edges": [list(e) for e in edges],
+        params = {"decl": list(decl), "scripted": list(scripted), "edges": [list(e) for e in edges],
                   "own": [[v] + list(own[v]) for v in decl], "own_first": [[v, bool(first[v])] for v in decl]}
         tr = run_graph_case(rec, cfg, actions, use_env, {"family": label, "n": n}, params)
         traces.append(tr)
